@@ -1,6 +1,7 @@
 package modsim
 
 import (
+	"context"
 	"errors"
 	"fmt"
 )
@@ -40,6 +41,11 @@ func PanicNow(kind string) {
 		panic(PlainStruct{A: 7, B: "x"})
 	case "custom":
 		panic(CustomErr{Code: 42})
+	case "ctxcanceled":
+		// an error value that the worker code itself treats specially when it is *returned*
+		panic(context.Canceled)
+	case "ctxwrapped":
+		panic(fmt.Errorf("wrapped: %w", context.Canceled))
 	default:
 		panic("unknown panic kind " + kind)
 	}
